@@ -1,4 +1,4 @@
-import Lemmas.RateLimiterFifo
+import Lemmas.RateLimiterLive
 /-! # C16 — the rate limiter never grants more than any applicable cap and never hangs
 
 Property theorems only.  The model is `Model/RateLimiter.lean`: the transition relation `RL.Step` (every critical
@@ -250,6 +250,17 @@ theorem root_close_closes_all (c : Nat) (s : S) (h : Reachable c s) (hc : s.cpc 
 theorem close_returns (c : Nat) (s : S) (h : Reachable c s) :
     s.lockHeld = false ∧ ¬ Deadlocked s ∧ (s.cpc = .send → ∃ s', Steps s s' ∧ s'.cpc = .ret) :=
   ⟨lockFree h, not_deadlocked h, close_can_return h⟩
+
+/-- **Close returns**, liveness form: on every infinite run of the system — any interleaving of any requests, ticks,
+    child creations and closes — root `Close`, once it is blocked on `done`, returns, provided the scheduler is fair in
+    the two ways `TickerScheduled` (a ticker goroutine waiting for the free lock eventually runs) and `SelectFair` (a
+    `select` that finds `done` ready again and again eventually takes it).  Nothing else is assumed: the protocol
+    itself never blocks the hand-over (with the unrepaired `Close`, `TickerScheduled` cannot hold:
+    `held_lock_would_deadlock`). -/
+theorem close_returns_under_fair_scheduling (c : Nat) (run : Nat → S) (h0 : run 0 = init c)
+    (hs : ∀ i, Step (run i) (run (i + 1))) (f1 : TickerScheduled run) (f2 : SelectFair run) (i : Nat)
+    (hi : (run i).cpc = .send) : ∃ j, i ≤ j ∧ (run j).cpc = .ret :=
+  close_terminates_fair c run h0 hs f1 f2 i hi
 
 /-- `Close` of a child, and every other call that only needs the lock, is enabled in every reachable state (nobody
     keeps the lock) -/
